@@ -65,6 +65,7 @@ def run_one(prog, models, root, shape, prefix=(), concrete=None, stats=None, tra
     if sc is not None:
         sc.shutdown()
         ctx.sched_stats = (sc.points, sc.switches, sc.preemptions, len(sc.threads))
+        ctx.preempted_at = list(sc.preempted_at)
     if outcome[0] == 'ok' and sample_model:
         ctx.sample_model = ctx.any_model_values()
     ctx.close()
@@ -108,11 +109,11 @@ def explore(prog, root, shape, max_paths=100000, max_seconds=600, models=None, s
         elif kind == 'end':
             res.infeasible += 1
         elif kind == 'cex':
-            res.cex.append(data)
+            res.cex.append((data[0], data[1], getattr(ctx, 'preempted_at', [])))
             if stop_on_cex:
                 break
         elif kind == 'panic':
-            res.panics.append(data)
+            res.panics.append((data[0], data[1], getattr(ctx, 'preempted_at', [])))
         elif kind == 'unsupported':
             res.unsupported.append(data)
             break
